@@ -175,6 +175,27 @@ def gen_case(seed):
                 seen.add((o["side"], o["sid"]))
                 if r5.random() < 0.5:
                     script.append({"t": round(o["t"] + r5.choice([0.0, 0.0, 0.001, 0.05, 0.5]), 4), "side": o["side"], "op": "stop", "sid": o["sid"], "code": 11})
+    r6 = random.Random("c06-reset-blocked/%s" % seed)
+    if r6.random() < 0.35:
+        # a stream that was written to its end (FIN included) but is stuck behind flow control is abandoned: the sender
+        # resets it, or the receiver asks it to stop — the final size announced by RESET_STREAM is bound by the limits
+        # like the end of any STREAM frame, whatever the application has written
+        ends = {}
+        for o in script:
+            if o["op"] == "write":
+                k = (o["side"], o["sid"])
+                e = ends.setdefault(k, {"t": o["t"], "n": 0, "fin": False})
+                e["t"] = max(e["t"], o["t"])
+                e["n"] += o["n"]
+                e["fin"] = e["fin"] or o["fin"]
+        for (side, sid), e in sorted(ends.items()):
+            if e["fin"] and e["n"] > 0 and r6.random() < 0.6:
+                other = "server" if side == "client" else "client"
+                t = round(e["t"] + r6.choice([0.0, 0.001, 0.05, 0.3, 1.0]), 4)
+                if (sid & 2) or r6.random() < 0.6:
+                    script.append({"t": t, "side": side, "op": "reset", "sid": sid, "code": 5})
+                else:
+                    script.append({"t": t, "side": other, "op": "stop", "sid": sid, "code": 6})
     script.sort(key=lambda o: o["t"])
     return {"seed": seed, "opts": opts, "fates": fates, "script": script, "horizon": fates["adv_seconds"] + 150.0}
 
